@@ -68,10 +68,34 @@ func c08isKey(s string) bool { return c08in(s, "h", "v", "a", "o") }
 func c08isName(s string) bool {
 	p := strings.Split(s, ":")
 	if len(p) == 2 {
-		return c08in(p[0], "new", "old") && c08isKey(p[1])
+		// newup / newtail: other spellings pubFromCN decodes to the same key (upper-case hex
+		// digits; bytes after the key)
+		return c08in(p[0], "new", "old", "newup", "newtail") && c08isKey(p[1])
 	}
 	return s == "junk" || s == "empty"
 }
+
+// c08isID: `<k>` is the identity NewServerIdentity makes for key k; `<k>/<f>` carries the
+// deprecated ID field of key f, `<k>/<f>/<addr>` also another declared address
+// (tls: a TLS address, tcp: a plain TCP address, own: the honest node's own address).
+func c08isID(s string) bool {
+	p := strings.Split(s, "/")
+	switch len(p) {
+	case 1:
+		return c08isKey(p[0])
+	case 2:
+		return c08isKey(p[0]) && c08isKey(p[1])
+	case 3:
+		return c08isKey(p[0]) && c08isKey(p[1]) && c08in(p[2], "tls", "tcp", "own")
+	}
+	return false
+}
+
+// idKey is the key the declared identity carries ("none" when no identity is sent).
+func (d c08desc) idKey() string { return strings.Split(d.id, "/")[0] }
+
+// c08timeValid: the certificate is inside its validity period on the honest node's clock.
+func c08timeValid(t string) bool { return c08in(t, "ok", "endsoon", "juststarted") }
 
 // c08parse accepts exactly what the Lean driver accepts.
 func c08parse(line string) (c08desc, bool) {
@@ -110,7 +134,7 @@ func c08parse(line string) (c08desc, bool) {
 	}
 	ok := c08in(d.role, "dial", "accept") && c08in(d.suite, "ed", "g1", "g2") && c08in(d.tlsv, "12", "13") &&
 		c08isKey(d.op) && d.ncerts <= 3 && c08in(d.der, "ok", "bad", "two") && c08in(d.signedby, "self", "other") &&
-		c08in(d.time, "ok", "expired", "future") && c08isName(d.cn) && c08in(d.nonce, "ok", "short", "none") &&
+		c08in(d.time, "ok", "expired", "future", "justexpired", "endsoon", "justfuture", "juststarted") && c08isName(d.cn) && c08in(d.nonce, "ok", "short", "none") &&
 		c08in(d.via, "key", "relay") && c08in(d.live, "none", "v", "a", "o") && (d.role == "accept" || d.live == "none") &&
 		(d.decoy == "none" || c08isName(d.decoy))
 	if d.uris != "none" {
@@ -133,7 +157,7 @@ func c08parse(line string) (c08desc, bool) {
 	if d.role == "dial" {
 		ok = ok && c08in(d.them, "v", "a", "o") && d.id == "-"
 	} else {
-		ok = ok && d.them == "-" && (d.id == "none" || c08isKey(d.id))
+		ok = ok && d.them == "-" && (d.id == "none" || c08isID(d.id))
 	}
 	return d, ok
 }
@@ -173,6 +197,10 @@ func (w *c08world) name(tok string) string {
 		return c08pubToCN(w.keys[p[1]].Public)
 	case len(p) == 2 && p[0] == "old":
 		return w.keys[p[1]].Public.String()
+	case len(p) == 2 && p[0] == "newup":
+		return "Z" + strings.ToUpper(c08pubToCN(w.keys[p[1]].Public)[1:])
+	case len(p) == 2 && p[0] == "newtail":
+		return c08pubToCN(w.keys[p[1]].Public) + "00ff"
 	case tok == "empty":
 		return ""
 	}
@@ -259,6 +287,14 @@ func (w *c08world) cert(d c08desc, cur, stale, lifted []byte) (*tls.Certificate,
 		nb, na = time.Now().Add(-3*time.Hour), time.Now().Add(-1*time.Hour)
 	case "future":
 		nb, na = time.Now().Add(1*time.Hour), time.Now().Add(3*time.Hour)
+	case "justexpired":
+		nb, na = time.Now().Add(-2*time.Hour), time.Now().Add(-90*time.Second)
+	case "endsoon":
+		nb, na = time.Now().Add(-2*time.Hour), time.Now().Add(90*time.Second)
+	case "justfuture":
+		nb, na = time.Now().Add(90*time.Second), time.Now().Add(2*time.Hour)
+	case "juststarted":
+		nb, na = time.Now().Add(-90*time.Second), time.Now().Add(2*time.Hour)
 	}
 	serial := new(big.Int).SetBytes(c08rand(12))
 	tmpl := &x509.Certificate{
@@ -545,6 +581,7 @@ func c08alert(err error) bool {
 // message was dispatched).
 func c08runClient(w *c08world, d c08desc, addr, tok string, stale []byte, lift func(nonce []byte) ([]byte, error),
 	done <-chan struct{}) c08clientResult {
+	addr0 := addr
 	var certErr error
 	cfg := &tls.Config{
 		InsecureSkipVerify: true,
@@ -590,7 +627,21 @@ func c08runClient(w *c08world, d c08desc, addr, tok string, stale []byte, lift f
 		}
 	}
 	if d.id != "none" {
-		si := network.NewServerIdentity(w.keys[d.id].Public, network.NewTLSAddress("127.0.0.1:7"))
+		ip := strings.Split(d.id, "/")
+		addr := network.NewTLSAddress("127.0.0.1:7")
+		if len(ip) == 3 {
+			switch ip[2] {
+			case "tcp":
+				addr = network.NewTCPAddress("127.0.0.1:7")
+			case "own":
+				addr = network.NewTLSAddress(addr0)
+			}
+		}
+		si := network.NewServerIdentity(w.keys[ip[0]].Public, addr)
+		if len(ip) >= 2 {
+			// the deprecated field is whatever the sender writes: here the identifier of another key
+			si.ID = network.NewServerIdentity(w.keys[ip[1]].Public, "").GetID()
+		}
 		if err := c08writeMsg(conn, si); err != nil {
 			return c08clientResult{hs: "ok", closed: true, why: "write identity: " + err.Error()}
 		}
